@@ -1,0 +1,38 @@
+//go:build verif
+
+package generator
+
+import (
+	"github.com/atombender/go-jsonschema/internal/x/text"
+	"github.com/atombender/go-jsonschema/pkg/schemas"
+)
+
+// Thin exports of unexported pure functions for the verification harness in /verif.
+// Compiled only with -tags verif; adds no behaviour.
+
+// VerifIdentifierize calls Caser.Identifierize.
+func VerifIdentifierize(capitalizations, resolveExtensions []string, s string) string {
+	return text.NewCaser(capitalizations, resolveExtensions).Identifierize(s)
+}
+
+// VerifIdentifierFromFileName calls Caser.IdentifierFromFileName.
+func VerifIdentifierFromFileName(capitalizations, resolveExtensions []string, fileName string) string {
+	return text.NewCaser(capitalizations, resolveExtensions).IdentifierFromFileName(fileName)
+}
+
+// VerifExtractRefNames calls schemaGenerator.extractRefNames.
+func VerifExtractRefNames(ref string) (string, string, error) {
+	return (&schemaGenerator{}).extractRefNames(&schemas.Type{Ref: ref})
+}
+
+// VerifMakeEnumConstantName calls Generator.makeEnumConstantName.
+func VerifMakeEnumConstantName(capitalizations []string, typeName, value string) string {
+	g := &Generator{caser: text.NewCaser(capitalizations, nil)}
+
+	return g.makeEnumConstantName(typeName, value)
+}
+
+// VerifSortedKeys calls sortedKeys.
+func VerifSortedKeys(m map[string]struct{}) []string {
+	return sortedKeys(m)
+}
